@@ -88,7 +88,7 @@ func (f *Frame) instr(ins ssa.Instruction) {
 		f.initObject(ref, elem)
 		if nt, ok := elem.(*types.Named); ok && !f.dry {
 			if _, has := f.s.P.Contracts.Types[nt.Obj().Pkg().Name()+"."+nt.Obj().Name()]; has {
-				f.s.newObjs = append(f.s.newObjs, newObj{ref, x.Type(), nt.Obj().Name(), f.pos(x), f.cur.reach})
+				f.s.newObjs = append(f.s.newObjs, newObj{f.s.curBlk, ref, x.Type(), nt.Obj().Name(), f.pos(x), f.cur.reach})
 			}
 		}
 		f.vals[x] = Ptr{Ref: ref, Key: rootKey(elem), Elem: elem}
@@ -393,22 +393,12 @@ func (f *Frame) shift(x *ssa.BinOp, at, bt string) Val {
 		}
 		return S{app("div", at, p), rt}
 	}
-	// variable count: ite chain over 0..bits-1 keeps every branch linear
-	var chain string
+	// variable count: go_shl / go_shr are ite chains over the count, so every branch stays linear
+	// (counts >= 64 give 0 resp. the sign; for narrower types the wrap below does the rest)
 	if x.Op == token.SHL {
-		chain = "0"
-		for k := bits - 1; k >= 0; k-- {
-			chain = ite(eq(bt, num(int64(k))), wrapTo(rt, app("*", at, pow2Str(uint(k)))), chain)
-		}
-	} else {
-		chain = ite(app("<", at, "0"), "(- 1)", "0")
-		for k := bits - 1; k >= 0; k-- {
-			chain = ite(eq(bt, num(int64(k))), app("div", at, pow2Str(uint(k))), chain)
-		}
+		return S{wrapTo(rt, app("go_shl", at, bt)), rt}
 	}
-	r := f.s.freshConst("sh", "Int")
-	f.s.fact(eq(r, chain))
-	return S{r, rt}
+	return S{app("go_shr", at, bt), rt}
 }
 
 // equal builds Go's == on two values of (static) type t.
